@@ -328,8 +328,14 @@ def r66(facts, res):
 
     def ev(c, m):
         if c[0] == 'bin' and c[1] in ('Eq', 'Ne'):
+            def whole_field(t, f):
+                # the operand IS the field (of self or other), not something computed from it (its length, its top, ...)
+                t = strip_ref(t)
+                while isinstance(t, tuple) and t and t[0] in ('deref', 'ref'):
+                    t = t[1]
+                return isinstance(t, tuple) and len(t) > 3 and t[0] == 'field' and t[3] == f
             for f, k in (('laidx', 'la'), ('pstack', 'ps')):
-                if term_has(c, lambda x: isinstance(x, tuple) and len(x) > 3 and x[0] == 'field' and x[3] == f):
+                if whole_field(c[2], f) and whole_field(c[3], f):
                     return int(m[k] == 1) if c[1] == 'Eq' else int(m[k] != 1)
             raise Unknown()
         if c[0] == 'discr' and has_call(c, 'last_repair'):
